@@ -112,7 +112,7 @@ structure ClassOK (cval : Cell → Ty) (d : Decl) (ps : PState) : Prop where
   loc   : ps.isLocal = d.isLocal
   ign   : ps.ignoreErr = d.isFunc
   selfv : ps.selfVis = !d.isFunc
-  base  : ps.base = d.base
+  bases : ps.bases = d.bases
   anns  : ∀ fa ∈ d.fields, FieldAnnOK cval fa.2
 
 def boundNames (defs : List (Name × Decl)) : List Name :=
@@ -133,7 +133,7 @@ are visible to the parser that has to evaluate them (module namespace, or the cl
 def Closed (defs : List (Name × Decl)) (S : List Name) : Prop :=
   ∀ k ∈ S, ∃ d, lookupD k defs = some d ∧ (∀ n ∈ d.allNames, n ∈ S) ∧
     (∀ n ∈ d.strNames, n ∈ boundNames defs ∨ (d.isFunc = false ∧ n = k)) ∧
-    (∀ b, d.base = some b → b ∈ S ∧ ∀ db, lookupD b defs = some db → db.base = none)
+    (∀ b ∈ d.bases, b ∈ S)
 
 /-! ### basic facts -/
 
@@ -676,34 +676,83 @@ theorem resolveTy_fieldDirect (cells : List (Cell × Ty)) (fa : FieldAnn) :
     resolveTy Cfg.fixed cells fa.direct = fa.direct := by
   cases fa <;> simp [FieldAnn.direct, resolveTy_direct]
 
-theorem resolveOwn_pack {cval : Cell → Ty} {defs : List (Name × Decl)} {s : State} {vis : List Name}
-    {cells : List (Cell × Ty)} {k b : Name} {X Y pb : PState}
-    (hvis : vis = boundNames defs) (hcells : CellsOK cval cells)
-    (p2 : lookupP k (setP k Y s.parsers) = some Y) (hY : Y.pending = []) (hne : b ≠ k)
-    (q1 : ParsersOK cval (setP b X (setP k Y s.parsers)) defs)
-    (q2 : lookupP b (setP b X (setP k Y s.parsers)) = some X)
-    (hlb : lookupP b s.parsers = some pb) (hX : X.pending = pb.pending) :
-    ∃ s1 ps1, (({ visible := vis, cells := cells, parsers := setP b X (setP k Y s.parsers) } : State), true) = (s1, true) ∧
+/-- a declared class whose parser has nothing pending -/
+def ResolvedD (defs : List (Name × Decl)) (s : State) (a : Name) : Prop :=
+  ∃ d p, lookupD a defs = some d ∧ lookupP a s.parsers = some p ∧ p.pending = []
+
+theorem lookup_none {cval : Cell → Ty} : ∀ {parsers : List (Name × PState)} {defs : List (Name × Decl)},
+    ParsersOK cval parsers defs → ∀ {k : Name}, lookupD k defs = none → lookupP k parsers = none := by
+  intro parsers defs h
+  induction h with
+  | nil => intro k _; rfl
+  | cons _ _ ih =>
+    intro k' hk
+    simp only [lookupD] at hk
+    simp only [lookupP]
+    split at hk
+    · cases hk
+    · rename_i he
+      simp only [he]
+      exact ih hk
+
+theorem parsers_length {cval : Cell → Ty} : ∀ {parsers : List (Name × PState)} {defs : List (Name × Decl)},
+    ParsersOK cval parsers defs → parsers.length = defs.length := by
+  intro parsers defs h
+  induction h with
+  | nil => rfl
+  | cons _ _ ih => simp [ih]
+
+/-- the field pass over the shared fields of ancestors that are already resolved changes nothing -/
+theorem passAnc_ok {cval : Cell → Ty} {defs : List (Name × Decl)} (cells : List (Cell × Ty)) :
+    ∀ (ancs : List Name) (parsers : List (Name × PState)), ParsersOK cval parsers defs →
+    (∀ a ∈ ancs, ∃ d p, lookupD a defs = some d ∧ lookupP a parsers = some p ∧ p.pending = []) →
+    ParsersOK cval (passAnc (resolveTy Cfg.fixed cells) ancs parsers) defs ∧
+    ∀ k', lookupP k' (passAnc (resolveTy Cfg.fixed cells) ancs parsers) = lookupP k' parsers := by
+  intro ancs
+  induction ancs with
+  | nil => intro parsers h _; exact ⟨h, fun _ => rfl⟩
+  | cons a as ih =>
+    intro parsers h hres
+    obtain ⟨d, p, hd, hp, hpe⟩ := hres a (by simp)
+    simp only [passAnc, hp]
+    obtain ⟨p', hp', hok⟩ := lookup_parsers h hd
+    have : p' = p := by rw [hp] at hp'; cases hp'; rfl
+    subst this
+    have hsame : p'.fields.map (fun q => (q.1, resolveTy Cfg.fixed cells q.2)) = p'.fields := by
+      rw [fields_of_resolved hok hpe, List.map_map]
+      apply List.map_congr_left
+      intro fa _
+      simp [Function.comp, resolveTy_fieldDirect]
+    rw [hsame]
+    have hself : ({ p' with fields := p'.fields } : PState) = p' := rfl
+    rw [hself]
+    obtain ⟨q1, q2⟩ := setP_ok h p' hd hok
+    have hlk : ∀ k', lookupP k' (setP a p' parsers) = lookupP k' parsers := by
+      intro k'
+      by_cases hka : k' = a
+      · subst hka; rw [q2, hp]
+      · exact lookupP_setP_ne _ hka _
+    obtain ⟨i1, i2⟩ := ih (setP a p' parsers) q1 (by
+      intro b hb
+      obtain ⟨db, pb, h1, h2, h3⟩ := hres b (by simp [hb])
+      exact ⟨db, pb, h1, by rw [hlk]; exact h2, h3⟩)
+    exact ⟨i1, fun k' => by rw [i2, hlk]⟩
+
+theorem pack_state {cval : Cell → Ty} {defs : List (Name × Decl)} {s : State} {vis : List Name}
+    {cells : List (Cell × Ty)} {parsers : List (Name × PState)} {k : Name} {Y : PState}
+    (hvis : vis = boundNames defs) (hcells : CellsOK cval cells) (a1 : ParsersOK cval parsers defs)
+    (hl : lookupP k parsers = some Y) (hY : Y.pending = [])
+    (hfr : ∀ k', k' ≠ k → lookupP k' parsers = lookupP k' s.parsers) :
+    ∃ s1 ps1, (({ visible := vis, cells := cells, parsers := parsers } : State), true) = (s1, true) ∧
       Inv cval s1 defs ∧ lookupP k s1.parsers = some ps1 ∧ ps1.pending = [] ∧
-      (∀ k', k' ≠ k → (lookupP k' s1.parsers).map (·.pending) = (lookupP k' s.parsers).map (·.pending)) := by
-  refine ⟨_, Y, rfl, ⟨hvis, hcells, q1⟩, ?_, hY, ?_⟩
-  · simp only
-    rw [lookupP_setP_ne _ (Ne.symm hne)]
-    exact p2
-  · intro k' hne'
-    simp only
-    by_cases hkb' : k' = b
-    · subst hkb'
-      rw [q2, hlb]
-      simp [hX]
-    · rw [lookupP_setP_ne _ hkb', lookupP_setP_ne _ hne']
+      (∀ k', k' ≠ k → (lookupP k' s1.parsers).map (·.pending) = (lookupP k' s.parsers).map (·.pending)) :=
+  ⟨_, Y, rfl, ⟨hvis, hcells, a1⟩, hl, hY, fun k' hne => by simp only; rw [hfr k' hne]⟩
 
 theorem resolveOwn_ok {cval : Cell → Ty} {s : State} {defs : List (Name × Decl)} (h : Inv cval s defs)
     {k : Name} {d : Decl} (hk : lookupD k defs = some d)
     (hvis : ∀ n ∈ d.strNames, n ∈ boundNames defs ∨ (d.isFunc = false ∧ n = k))
-    (hbase : ∀ b, d.base = some b → b ≠ k ∧ ∃ db pb, lookupD b defs = some db ∧
-      lookupP b s.parsers = some pb ∧ pb.pending = []) :
-    ∃ s1 ps1, resolveOwn Cfg.fixed s k = (s1, true) ∧ Inv cval s1 defs ∧
+    (ancs : List Name) (hanc : ∀ a ∈ ancs, a = k ∨ ResolvedD defs s a) :
+    ∃ s1 ps1, resolveOwn Cfg.fixed s k ancs = (s1, true) ∧ Inv cval s1 defs ∧
       lookupP k s1.parsers = some ps1 ∧ ps1.pending = [] ∧
       (∀ k', k' ≠ k → (lookupP k' s1.parsers).map (·.pending) = (lookupP k' s.parsers).map (·.pending)) := by
   obtain ⟨ps, hlk, hok⟩ := lookup_parsers h.parsers hk
@@ -757,7 +806,7 @@ theorem resolveOwn_ok {cval : Cell → Ty} {s : State} {defs : List (Name × Dec
         | false => simp [resolveTy_direct]
     have hok1 : ClassOK cval d { ps with pending := [], fields := ps.fields.map (fun p => (p.1, resolveTy Cfg.fixed
         (resolveLoop (visOf s (if ps.selfVis = true then some k else none)) ps.ignoreErr ps.pending s.cells).cells p.2)) } := by
-      refine ⟨?_, by intro p hp; simp at hp, hok.loc, hok.ign, hok.selfv, hok.base, hok.anns⟩
+      refine ⟨?_, by intro p hp; simp at hp, hok.loc, hok.ign, hok.selfv, hok.bases, hok.anns⟩
       simp only [hflds, pcells_nil]
       apply List.map_congr_left
       intro fa _
@@ -771,78 +820,212 @@ theorem resolveOwn_ok {cval : Cell → Ty} {s : State} {defs : List (Name × Dec
       · intro q hq
         exact r4 q (List.mem_filter.mp hq).1
       · exact r4
-    cases hb : d.base with
-    | none =>
-      have hb' : ps.base = none := by rw [hok.base, hb]
-      simp only [hb'] at p1 p2 ⊢
-      exact ⟨_, _, rfl, ⟨h.vis, hcells, p1⟩, p2, rfl, fun k' hne => by simp [lookupP_setP_ne _ hne]⟩
-    | some b =>
-      have hb' : ps.base = some b := by rw [hok.base, hb]
-      obtain ⟨hne, db, pb, hkb, hlb, hpb⟩ := hbase b hb
-      simp only [hb'] at p1 p2 ⊢
-      rw [lookupP_setP_ne _ hne, hlb]
-      simp only
-      -- the shared fields of the (already resolved) base are left as they are
-      obtain ⟨pb', hlb', hokb⟩ := lookup_parsers h.parsers hkb
-      have : pb' = pb := by rw [hlb] at hlb'; cases hlb'; rfl
-      subst this
-      have hfb := fields_of_resolved hokb hpb
-      have hsame : pb'.fields.map (fun p => (p.1, resolveTy Cfg.fixed
-        (resolveLoop (visOf s (if ps.selfVis = true then some k else none)) ps.ignoreErr ps.pending s.cells).cells p.2)) = pb'.fields := by
-        rw [hfb, List.map_map]
-        apply List.map_congr_left
-        intro fa _
-        simp [Function.comp, resolveTy_fieldDirect]
-      have hokb1 : ClassOK cval db { pb' with fields := pb'.fields.map (fun p => (p.1, resolveTy Cfg.fixed
-        (resolveLoop (visOf s (if ps.selfVis = true then some k else none)) ps.ignoreErr ps.pending s.cells).cells p.2)) } := by
-        rw [hsame]; exact hokb
-      obtain ⟨q1, q2⟩ := setP_ok p1 _ hkb hokb1
-      exact resolveOwn_pack h.vis hcells p2 rfl hne q1 q2 hlb rfl
+    -- the shared fields of the (already resolved) ancestors are left as they are
+    obtain ⟨a1, a2⟩ := passAnc_ok (cval := cval) (defs := defs)
+      (resolveLoop (visOf s (if ps.selfVis = true then some k else none)) ps.ignoreErr ps.pending s.cells).cells
+      ancs _ p1 (by
+        intro a ha
+        rcases hanc a ha with hak | ⟨da, pa, h1, h2, h3⟩
+        · subst hak; exact ⟨d, _, hk, p2, rfl⟩
+        · by_cases hak : a = k
+          · subst hak; exact ⟨d, _, hk, p2, rfl⟩
+          · exact ⟨da, pa, h1, by rw [lookupP_setP_ne _ hak]; exact h2, h3⟩)
+    have hl := a2 k
+    rw [p2] at hl
+    exact pack_state h.vis hcells a1 hl rfl (fun k' hne => by rw [a2, lookupP_setP_ne _ hne])
+
+/-! ### the walk up the bases -/
+
+def chainFD : Nat → List (Name × Decl) → Name → List (Name × List Name)
+  | 0, _, k => [(k, [])]
+  | n + 1, defs, k =>
+    let sub := match lookupD k defs with
+      | none => []
+      | some d => d.bases.flatMap (chainFD n defs)
+    sub ++ [(k, sub.map (·.1))]
+
+theorem chainF_eq {cval : Cell → Ty} {parsers : List (Name × PState)} {defs : List (Name × Decl)}
+    (h : ParsersOK cval parsers defs) : ∀ (n : Nat) (k : Name), chainF n parsers k = chainFD n defs k := by
+  intro n
+  induction n with
+  | zero => intro k; rfl
+  | succ n ih =>
+    intro k
+    simp only [chainF, chainFD]
+    cases hd : lookupD k defs with
+    | none => simp [lookup_none h hd]
+    | some d =>
+      obtain ⟨p, hp, hok⟩ := lookup_parsers h hd
+      have : p.bases.flatMap (chainF n parsers) = d.bases.flatMap (chainFD n defs) := by
+        rw [hok.bases]
+        congr 1
+        funext b
+        exact ih b
+      simp [hp, this]
+
+/-- every visited parser's ancestors were visited before it -/
+def ChainClosed : List Name → List (Name × List Name) → Prop
+  | _, [] => True
+  | R, (a, ancs) :: rest => (∀ b ∈ ancs, b ∈ R) ∧ ChainClosed (a :: R) rest
+
+theorem chainClosed_mono : ∀ (L : List (Name × List Name)) (R R' : List Name), (∀ r ∈ R, r ∈ R') →
+    ChainClosed R L → ChainClosed R' L
+  | [], _, _, _, _ => trivial
+  | (a, ancs) :: rest, R, R', hsub, h => by
+    simp only [ChainClosed] at h ⊢
+    refine ⟨fun b hb => hsub b (h.1 b hb), chainClosed_mono rest (a :: R) (a :: R') ?_ h.2⟩
+    intro r hr
+    rcases List.mem_cons.mp hr with hr | hr
+    · simp [hr]
+    · exact List.mem_cons_of_mem _ (hsub r hr)
+
+theorem chainClosed_append : ∀ (L1 L2 : List (Name × List Name)) (R : List Name),
+    ChainClosed R L1 → ChainClosed (L1.map (·.1) ++ R) L2 → ChainClosed R (L1 ++ L2)
+  | [], L2, R, _, h2 => by simpa using h2
+  | (a, ancs) :: rest, L2, R, h1, h2 => by
+    simp only [ChainClosed] at h1
+    simp only [List.cons_append, ChainClosed]
+    refine ⟨h1.1, chainClosed_append rest L2 (a :: R) h1.2 (chainClosed_mono L2 _ _ ?_ h2)⟩
+    intro r hr
+    simp only [List.map_cons, List.cons_append, List.mem_cons, List.mem_append, List.mem_map] at hr ⊢
+    rcases hr with hr | hr | hr
+    · exact Or.inr (Or.inl hr)
+    · exact Or.inl hr
+    · exact Or.inr (Or.inr hr)
+
+theorem chainClosed_flatMap (f : Name → List (Name × List Name)) : ∀ (bs : List Name) (R : List Name),
+    (∀ b ∈ bs, ∀ R, ChainClosed R (f b)) → ChainClosed R (bs.flatMap f)
+  | [], _, _ => trivial
+  | b :: bs, R, h => by
+    simp only [List.flatMap_cons]
+    exact chainClosed_append _ _ R (h b (by simp) R)
+      (chainClosed_flatMap f bs _ (fun b' hb' => h b' (by simp [hb'])))
+
+theorem chainFD_closed (defs : List (Name × Decl)) : ∀ (n : Nat) (k : Name) (R : List Name),
+    ChainClosed R (chainFD n defs k) := by
+  intro n
+  induction n with
+  | zero => intro k R; simp [chainFD, ChainClosed]
+  | succ n ih =>
+    intro k R
+    simp only [chainFD]
+    apply chainClosed_append
+    · cases lookupD k defs with
+      | none => trivial
+      | some d => exact chainClosed_flatMap _ _ _ (fun b _ R => ih b R)
+    · simp only [ChainClosed]
+      exact ⟨fun b hb => by simp [hb], trivial⟩
+
+theorem chainFD_in {defs : List (Name × Decl)} {S : List Name} (hS : Closed defs S) : ∀ (n : Nat) (k : Name), k ∈ S →
+    ∀ p ∈ chainFD n defs k, p.1 ∈ S := by
+  intro n
+  induction n with
+  | zero => intro k hk p hp; simp [chainFD] at hp; subst hp; exact hk
+  | succ n ih =>
+    intro k hk p hp
+    obtain ⟨d, hd, _, _, hb⟩ := hS k hk
+    simp only [chainFD, hd, List.mem_append, List.mem_flatMap, List.mem_singleton] at hp
+    rcases hp with ⟨b, hbb, hp⟩ | hp
+    · exact ih b (hb b hbb) p hp
+    · subst hp; exact hk
+
+theorem resolveChain_ok {cval : Cell → Ty} {defs : List (Name × Decl)} {S : List Name} (hS : Closed defs S) :
+    ∀ (L : List (Name × List Name)) (R : List Name) (s : State), Inv cval s defs → (∀ p ∈ L, p.1 ∈ S) →
+    ChainClosed R L → (∀ r ∈ R, ResolvedD defs s r) →
+    ∃ s1, resolveChain Cfg.fixed s L = (s1, true) ∧ Inv cval s1 defs ∧
+      (∀ r, r ∈ L.map (·.1) ∨ r ∈ R → ResolvedD defs s1 r) := by
+  intro L
+  induction L with
+  | nil =>
+    intro R s h _ _ hR
+    refine ⟨s, rfl, h, ?_⟩
+    intro r hr
+    rcases hr with hr | hr
+    · simp at hr
+    · exact hR r hr
+  | cons node L ih =>
+    intro R s h hin hcl hR
+    rcases node with ⟨a, ancs⟩
+    simp only [ChainClosed] at hcl
+    obtain ⟨d, hd, _, hvis, _⟩ := hS a (hin (a, ancs) (by simp))
+    obtain ⟨s1, ps1, e1, i1, l1, pe1, fr1⟩ := resolveOwn_ok h hd hvis ancs
+      (fun b hb => Or.inr (hR b (hcl.1 b hb)))
+    have hR1 : ∀ r ∈ a :: R, ResolvedD defs s1 r := by
+      intro r hr
+      by_cases hra : r = a
+      · subst hra; exact ⟨d, ps1, hd, l1, pe1⟩
+      · have hrR : r ∈ R := by
+          rcases List.mem_cons.mp hr with hr | hr
+          · exact absurd hr hra
+          · exact hr
+        obtain ⟨dr, pr, h1, h2, h3⟩ := hR r hrR
+        have := fr1 r hra
+        rw [h2] at this
+        cases hl : lookupP r s1.parsers with
+        | none => simp [hl] at this
+        | some pr1 =>
+          simp only [hl, Option.map_some, Option.some.injEq] at this
+          exact ⟨dr, pr1, h1, hl, by rw [this, h3]⟩
+    obtain ⟨s2, e2, i2, r2⟩ := ih (a :: R) s1 i1 (fun p hp => hin p (by simp [hp])) hcl.2 hR1
+    refine ⟨s2, by simp only [resolveChain, e1, e2], i2, ?_⟩
+    intro r hr
+    apply r2
+    simp only [List.map_cons, List.mem_cons] at hr ⊢
+    rcases hr with (hr | hr) | hr
+    · exact Or.inr (Or.inl hr)
+    · exact Or.inl hr
+    · exact Or.inr (Or.inr hr)
+
+theorem flatMap_congr' {α β : Type} {f g : α → List β} : ∀ {l : List α}, (∀ a ∈ l, f a = g a) →
+    l.flatMap f = l.flatMap g
+  | [], _ => rfl
+  | a :: l, h => by
+    simp only [List.flatMap_cons, h a (by simp), flatMap_congr' (l := l) (fun b hb => h b (by simp [hb]))]
+
+theorem allFieldsF_eq {cval : Cell → Ty} {s : State} {defs : List (Name × Decl)} (h : Inv cval s defs) :
+    ∀ (n : Nat) (k : Name), (∀ p ∈ chainFD n defs k, ResolvedD defs s p.1) →
+    allFieldsF n s.parsers k = directFieldsF n defs k := by
+  intro n
+  induction n with
+  | zero =>
+    intro k hres
+    obtain ⟨d, p, hd, hp, hpe⟩ := hres (k, []) (by simp [chainFD])
+    obtain ⟨p', hp', hok⟩ := lookup_parsers h.parsers hd
+    have : p' = p := by rw [hp] at hp'; cases hp'; rfl
+    subst this
+    simp [allFieldsF, directFieldsF, hd, hp, fields_of_resolved hok hpe]
+  | succ n ih =>
+    intro k hres
+    have hself : ResolvedD defs s k := hres (k, _) (by simp only [chainFD, List.mem_append, List.mem_singleton]; exact Or.inr rfl)
+    obtain ⟨d, p, hd, hp, hpe⟩ := hself
+    obtain ⟨p', hp', hok⟩ := lookup_parsers h.parsers hd
+    have : p' = p := by rw [hp] at hp'; cases hp'; rfl
+    subst this
+    simp only [allFieldsF, directFieldsF, hd, hp, fields_of_resolved hok hpe, hok.bases]
+    rw [flatMap_congr' (l := d.bases.reverse) (f := allFieldsF n s.parsers) (g := directFieldsF n defs)]
+    intro b hb
+    apply ih b
+    intro q hq
+    apply hres q
+    simp only [chainFD, hd, List.mem_append, List.mem_flatMap]
+    exact Or.inl ⟨b, by simpa using hb, hq⟩
 
 theorem resolveParser_ok {cval : Cell → Ty} {s : State} {defs : List (Name × Decl)} (h : Inv cval s defs)
     {S : List Name} (hS : Closed defs S) {k : Name} (hkS : k ∈ S) :
-    ∃ s1 ps1 d, resolveParser Cfg.fixed s k = (s1, true) ∧ Inv cval s1 defs ∧ lookupD k defs = some d ∧
-      lookupP k s1.parsers = some ps1 ∧ allFields s1.parsers ps1 = directFields defs d := by
-  obtain ⟨d, hk, _, hvis, hbs⟩ := hS k hkS
-  obtain ⟨ps, hlk, hok⟩ := lookup_parsers h.parsers hk
-  simp only [resolveParser, hlk]
-  cases hb : d.base with
-  | none =>
-    have hb' : ps.base = none := by rw [hok.base, hb]
-    simp only [hb']
-    obtain ⟨s1, ps1, e1, i1, l1, pe1, _⟩ := resolveOwn_ok h hk hvis (by intro b hbb; rw [hb] at hbb; cases hbb)
-    obtain ⟨ps1', l1', ok1⟩ := lookup_parsers i1.parsers hk
-    have : ps1' = ps1 := by rw [l1] at l1'; cases l1'; rfl
-    subst this
-    refine ⟨s1, ps1', d, e1, i1, hk, l1, ?_⟩
-    simp [allFields, directFields, ok1.base, hb, fields_of_resolved ok1 pe1]
-  | some b =>
-    have hb' : ps.base = some b := by rw [hok.base, hb]
-    obtain ⟨hbS, hdepth⟩ := hbs b hb
-    obtain ⟨db, hkb, _, hvisb, _⟩ := hS b hbS
-    have hdb : db.base = none := hdepth db hkb
-    have hne : b ≠ k := by
-      intro he; subst he
-      rw [hk] at hkb; cases hkb
-      rw [hb] at hdb; cases hdb
-    simp only [hb', Cfg.fixed, if_true]
-    rw [← Cfg.fixed]
-    -- the base first
-    obtain ⟨s1, pb1, e1, i1, lb1, pbe1, _⟩ := resolveOwn_ok h hkb hvisb (by intro b' hbb; rw [hdb] at hbb; cases hbb)
-    simp only [e1]
-    -- then the class itself
-    obtain ⟨s2, ps2, e2, i2, l2, pe2, fr2⟩ := resolveOwn_ok i1 hk hvis
-      (by intro b' hbb; rw [hb] at hbb; cases hbb; exact ⟨hne, db, pb1, hkb, lb1, pbe1⟩)
-    obtain ⟨ps2', l2', ok2⟩ := lookup_parsers i2.parsers hk
-    have : ps2' = ps2 := by rw [l2] at l2'; cases l2'; rfl
-    subst this
-    obtain ⟨pb2, lb2, okb2⟩ := lookup_parsers i2.parsers hkb
-    have hpb2 : pb2.pending = [] := by
-      have := fr2 b hne
-      rw [lb2, lb1] at this
-      simpa [pbe1] using this
-    refine ⟨s2, ps2', d, e2, i2, hk, l2, ?_⟩
-    simp [allFields, directFields, ok2.base, hb, lb2, hkb, fields_of_resolved ok2 pe2, fields_of_resolved okb2 hpb2]
+    ∃ s1 ps1, resolveParser Cfg.fixed s k = (s1, true) ∧ Inv cval s1 defs ∧
+      lookupP k s1.parsers = some ps1 ∧
+      allFieldsF s1.parsers.length s1.parsers k = directFieldsF defs.length defs k := by
+  have hlen := parsers_length h.parsers
+  simp only [resolveParser, Cfg.fixed, if_true]
+  rw [← Cfg.fixed, chainF_eq h.parsers, hlen]
+  obtain ⟨s1, e1, i1, r1⟩ := resolveChain_ok hS (chainFD defs.length defs k) [] s h
+    (chainFD_in hS _ k hkS) (chainFD_closed defs _ k []) (by intro r hr; simp at hr)
+  have hk1 : ResolvedD defs s1 k := r1 k (Or.inl (by
+    cases defs.length <;> simp [chainFD]))
+  obtain ⟨_, p1, _, hp1, _⟩ := hk1
+  refine ⟨s1, p1, e1, i1, hp1, ?_⟩
+  rw [parsers_length i1.parsers]
+  exact allFieldsF_eq i1 _ k (fun p hp => r1 p.1 (Or.inl (List.mem_map.mpr ⟨p, hp, rfl⟩)))
 
 /-! ### parsing: the threaded state never matters once the invariant holds -/
 
@@ -967,21 +1150,59 @@ theorem fieldDirect_in {S : List Name} {d : Decl} (hall : ∀ n ∈ d.allNames, 
   | plain a => exact TyIn_direct a hsub
   | str c e => exact TyIn_direct e hsub
 
-theorem directFields_in {defs : List (Name × Decl)} {S : List Name} (hS : Closed defs S) {k : Name} (hkS : k ∈ S)
-    {d : Decl} (hk : lookupD k defs = some d) : ∀ p ∈ directFields defs d, TyIn S p.2 := by
-  obtain ⟨d', hk', hall, _, hbs⟩ := hS k hkS
-  rw [hk] at hk'; cases hk'
+theorem dictPut_mem (kv : Nat × Ty) : ∀ (acc : List (Nat × Ty)) (p : Nat × Ty), p ∈ dictPut kv acc → p = kv ∨ p ∈ acc
+  | [], p, h => by simp [dictPut] at h; exact Or.inl h
+  | (k, v) :: rest, p, h => by
+    simp only [dictPut] at h
+    split at h
+    · rename_i he
+      have hk : k = kv.1 := by simpa using he
+      rcases List.mem_cons.mp h with h | h
+      · left; rw [h, hk]
+      · exact Or.inr (List.mem_cons_of_mem _ h)
+    · rcases List.mem_cons.mp h with h | h
+      · exact Or.inr (by simp [h])
+      · rcases dictPut_mem kv rest p h with h | h
+        · exact Or.inl h
+        · exact Or.inr (List.mem_cons_of_mem _ h)
+
+theorem dictMerge_mem (l : List (Nat × Ty)) : ∀ p ∈ dictMerge l, p ∈ l := by
+  have : ∀ (l acc : List (Nat × Ty)) (p : Nat × Ty),
+      p ∈ l.foldl (fun acc kv => dictPut kv acc) acc → p ∈ acc ∨ p ∈ l := by
+    intro l
+    induction l with
+    | nil => intro acc p h; exact Or.inl h
+    | cons kv l ih =>
+      intro acc p h
+      simp only [List.foldl_cons] at h
+      rcases ih _ p h with h | h
+      · rcases dictPut_mem kv acc p h with h | h
+        · exact Or.inr (by simp [h])
+        · exact Or.inl h
+      · exact Or.inr (List.mem_cons_of_mem _ h)
   intro p hp
-  simp only [directFields, List.mem_append] at hp
-  rcases hp with hp | hp
-  · cases hb : d.base with
-    | none => simp [hb] at hp
-    | some b =>
-      obtain ⟨hbS, _⟩ := hbs b hb
-      obtain ⟨db, hkb, hallb, _, _⟩ := hS b hbS
-      simp only [hb, hkb] at hp
-      exact fieldDirect_in hallb p hp
-  · exact fieldDirect_in hall p hp
+  rcases this l [] p hp with h | h
+  · simp at h
+  · exact h
+
+theorem directFieldsF_in {defs : List (Name × Decl)} {S : List Name} (hS : Closed defs S) :
+    ∀ (n : Nat) (k : Name), k ∈ S → ∀ p ∈ directFieldsF n defs k, TyIn S p.2 := by
+  intro n
+  induction n with
+  | zero =>
+    intro k hk p hp
+    obtain ⟨d, hd, hall, _, _⟩ := hS k hk
+    simp only [directFieldsF, hd] at hp
+    exact fieldDirect_in hall p hp
+  | succ n ih =>
+    intro k hk p hp
+    obtain ⟨d, hd, hall, _, hb⟩ := hS k hk
+    simp only [directFieldsF, hd] at hp
+    have := dictMerge_mem _ p hp
+    simp only [List.mem_append, List.mem_flatMap, List.mem_reverse] at this
+    rcases this with ⟨b, hbb, hp⟩ | hp
+    · exact ih b (hb b hbb) p hp
+    · exact fieldDirect_in hall p hp
 
 theorem parse_spec {cval : Cell → Ty} (leaf : Val → Option Val) {defs : List (Name × Decl)} {S : List Name}
     (hS : Closed defs S) :
@@ -1064,17 +1285,18 @@ theorem parse_spec {cval : Cell → Ty} (leaf : Val → Option Val) {defs : List
       simp only [TyIn] at hty
       cases v with
       | dict kvs =>
-        obtain ⟨s1, ps1, d, hr, hinv1, hk, hl1, hf1⟩ := resolveParser_ok h hS hty
-        have henv : envOf defs k = some (directFields defs d) := by simp [envOf, hk]
+        obtain ⟨s1, ps1, hr, hinv1, hl1, hf1⟩ := resolveParser_ok h hS hty
+        obtain ⟨d, hk, _⟩ := hS k hty
+        have henv : envOf defs k = some (directFieldsF defs.length defs k) := by simp [envOf, hk]
         simp only [parseTy, specParse, hr, hl1, henv, hf1]
         obtain ⟨m1, m2⟩ := fieldsS_spec (fun s => Inv cval s defs) (fun s t x => parseTy Cfg.fixed leaf fuel s t x)
-          (fun t x => specParse leaf (envOf defs) fuel t x) kvs (directFields defs d) s1
+          (fun t x => specParse leaf (envOf defs) fuel t x) kvs (directFieldsF defs.length defs k) s1
           (by
             intro p hp x s hs
             apply ih s _ x hs
-            exact directFields_in hS hty hk p hp) hinv1
+            exact directFieldsF_in hS _ k hty p hp) hinv1
         rcases hm : fieldsS (fun s t x => parseTy Cfg.fixed leaf fuel s t x) kvs s1
-            (directFields defs d) with ⟨s2, r⟩
+            (directFieldsF defs.length defs k) with ⟨s2, r⟩
         rw [hm] at m1 m2
         simp only at m1 m2
         try rw [hm]
